@@ -72,7 +72,10 @@ PROPS = {
     'C01': {'jobs': [REASM, ASND, ARCV, E2E_T], 'assumptions': [
         'sender half (Props/C01wire.lean): payload BYTES are not in the sender model (lengths and fragment identity only); that a chunk carries the matching slice of the written buffer is observed by the e2e content hashes',
         'receive-side system theorem (C01_receiver_prefix): chunks are the fragments of the peer\'s messages (universe of Reasm.Sender per stream, fewer than 2^31 TSNs in all), reliable streams only (no FORWARD-TSN, no reset in the run)',
-        'fewer than 2^15 ordered messages of a stream outstanding (SSN half-space; known finding D15); fewer than 2^31 TSNs/MIDs outstanding']},
+        'fewer than 2^15 ordered messages of a stream outstanding (SSN half-space; known finding D15); fewer than 2^31 TSNs/MIDs outstanding',
+        'composition (Props/C01net.lean, Model/NetSys.lean): reliable ordered streams only (openS ordered, relType 0, no unreg; no FORWARD-TSN / reset operation in NetSys); fewer than 2^31 chunks written in all; '
+        'D15 window stated on the run (messages written at most 2^31 / 2^15 ahead of messages read at every step); DATA only: the selection oracle of the sender model is message-contiguous and per-stream FIFO (SelContig; '
+        'proved of the real pending queue in Props/C17, a hypothesis here); toWire assumes a chunk carries the byte slice [i*mp, i*mp+len) of the written payload (the copy in packetize is observed by the e2e content hashes only)']},
     'C11': {'jobs': [REASM, ARCV], 'assumptions': [
         'sum of len(userData) over all chunks ever pushed < 2^63 (uint64 counter / int conversion in subtractNumBytes)',
         'association level: credit formula over the streams REGISTERED in the association table (deviation D13: unread bytes of a reset stream are not counted); '
